@@ -36,7 +36,7 @@ class UseGenerator(SimpleCodemod, NameResolutionMixin):
                 if len(original_node.args) == 1 and self.is_builtin_function(
                     original_node
                 ):
-                    match original_node.args[0].value:
+                    match updated_node.args[0].value:
                         case cst.ListComp(elt=elt, for_in=for_in):
                             self.add_change(original_node, self.change_description)
                             return updated_node.with_changes(
@@ -54,4 +54,4 @@ class UseGenerator(SimpleCodemod, NameResolutionMixin):
                                 ],
                             )
 
-        return original_node
+        return updated_node
